@@ -52,7 +52,24 @@ ENUMS = {
     "AnsiMode": ("ansi_mode", {"Insert": "Insert", "NewLine": "NewLine"}),
     "DecMode": ("dec_mode", {k: k for k in ("CursorKeys", "Origin", "AutoWrap", "TextCursorEnable", "AltScreenBuffer",
                                             "SaveCursor", "SaveCursorAltScreenBuffer")}),
+    "BufferType": ("btype", {"Primary": "Primary", "Alternate": "Alternate"}),
+    "Ordering": ("comparison", {"Less": "Lt", "Equal": "Eq", "Greater": "Gt"}),
 }
+COQ_TY["XtwinopsOp"] = "xtwinops_op"
+# irrefutable `let Enum::Variant(a, b) = e;` : (enum, variant) -> (Coq constructor, component types)
+LETPATS = {("XtwinopsOp", "Resize"): ("XtwinopsResize", ["u16", "u16"])}
+# non-scalar places that W-mode functions may READ (pure interface fields) ...
+WREAD = {"buffer.cols": ("q_buf_cols", "usize"), "saved_ctx.cursor_col": ("q_sctx_col", "usize"),
+         "saved_ctx.cursor_row": ("q_sctx_row", "usize"), "saved_ctx.origin_mode": ("q_sctx_org", "bool"),
+         "saved_ctx.auto_wrap_mode": ("q_sctx_awm", "bool"), "xtwinops": ("q_xtw", "bool"),
+         "active_buffer_type": ("q_active", "BufferType")}
+# ... and WRITE (events carrying the evaluated right-hand side)
+WWRITE = {"saved_ctx.cursor_col": ("EvSctxCol", "usize"), "saved_ctx.cursor_row": ("EvSctxRow", "usize"),
+          "saved_ctx.origin_mode": ("EvSctxOrg", "bool"), "saved_ctx.auto_wrap_mode": ("EvSctxAwm", "bool"),
+          "active_buffer_type": ("EvActive", "BufferType")}
+# whole-value moves between non-scalar places: (target place, source place) -> event
+WMOVE = {("saved_ctx.pen", "pen"): "EvSctxPenSave", ("pen", "saved_ctx.pen"): "EvPenRestore"}
+WSWAP = {("saved_ctx", "alternate_saved_ctx"): "EvSwapCtx", ("buffer", "other_buffer"): "EvSwapBuf"}
 for _e, (_ct, _) in ENUMS.items():
     COQ_TY[_e] = _ct
     COQ_TY["Vec<%s>" % _e] = "(list %s)" % _ct
@@ -73,6 +90,9 @@ EXTERN = {
     ("buffer", "erase"): ("EvBufErase", ["p", "erase", "pen"]),
     ("buffer", "wrap"): ("EvBufWrap", ["i"]),
     ("dirty_lines", "add"): ("EvDirtyAdd", ["i"]),
+    ("dirty_lines", "resize"): ("EvDirtyResize", ["i"]),
+    ("tabs", "contract"): ("EvTabsContract", ["i"]),
+    ("tabs", "expand"): ("EvTabsExpand", ["i", "i"]),
     ("tabs", "set"): ("EvTabSet", ["i"]),
     ("tabs", "unset"): ("EvTabUnset", ["i"]),
     ("tabs", "clear"): ("EvTabsClear", []),
@@ -84,7 +104,10 @@ EVENTS = [("EvTabSet", "(a : Z)"), ("EvTabUnset", "(a : Z)"), ("EvTabsClear", ""
           ("EvBufScrollDown", "(a b c : Z)"), ("EvDirtyExtend", "(a b : Z)"),
           ("EvBufPrint", "(c r : Z) (x : zcell)"), ("EvBufInsert", "(c r n : Z) (x : zcell)"),
           ("EvBufDelete", "(c r n : Z)"), ("EvBufErase", "(c r : Z) (m : zerase)"), ("EvBufWrap", "(r : Z)"),
-          ("EvDirtyAdd", "(r : Z)")]
+          ("EvDirtyAdd", "(r : Z)"), ("EvDirtyResize", "(n : Z)"), ("EvTabsContract", "(c : Z)"),
+          ("EvTabsExpand", "(a b : Z)"), ("EvSctxCol", "(v : Z)"), ("EvSctxRow", "(v : Z)"),
+          ("EvSctxOrg", "(v : bool)"), ("EvSctxAwm", "(v : bool)"), ("EvSctxPenSave", ""), ("EvPenRestore", ""),
+          ("EvActive", "(b : btype)"), ("EvSwapCtx", ""), ("EvSwapBuf", ""), ("EvBufNewAlt", "(c r : Z)")]
 # queries: calls into the non-scalar world that return a value (W-mode functions only)
 #   (receiver place, method) -> (interface field, argument kinds, result type)
 QUERIES = {
@@ -108,7 +131,11 @@ OPAQUE = {"save_cursor": ("XSaveCursor", []), "restore_cursor": ("XRestoreCursor
           "soft_reset": ("XSoftReset", []), "hard_reset": ("XHardReset", []),
           "switch_to_alternate_buffer": ("XSwitchAlt", []), "switch_to_primary_buffer": ("XSwitchPrimary", []),
           "reflow": ("XReflow", []), "sgr": ("XSgr", ["Vec<SgrOp>"]), "xtwinops": ("XXtwinops", ["XtwinopsOp"])}
-ROOTS_W = ["sc", "rc", "ris", "decstr", "decset", "decrst", "print", "ich", "dch", "ech", "ed", "el", "decaln", "rep", "move_cursor_to_next_tab",
+for _m in ("save_cursor", "restore_cursor", "switch_to_alternate_buffer", "switch_to_primary_buffer", "reflow",
+           "xtwinops"):
+    del OPAQUE[_m]          # now translated (the zfull constructors stay, unused, for interface stability)
+ROOTS_W = ["save_cursor", "restore_cursor", "switch_to_alternate_buffer", "switch_to_primary_buffer", "reflow",
+           "resize", "xtwinops", "sc", "rc", "ris", "decstr", "decset", "decrst", "print", "ich", "dch", "ech", "ed", "el", "decaln", "rep", "move_cursor_to_next_tab",
            "move_cursor_to_prev_tab", "ht", "cht", "cbt", "ctc", "tbc", "sm", "rm"]
 
 # binary operators, lowest precedence first (`..` and `as` are handled separately)
@@ -160,12 +187,31 @@ class Parser:
                 if self.at("mut"):
                     self.eat()
                 name = self.eat(kind="id")
+                if self.at("::"):               # irrefutable enum pattern: let Enum::Variant(a, b) = e;
+                    segs = [name]
+                    while self.at("::"):
+                        self.eat()
+                        segs.append(self.eat(kind="id"))
+                    self.eat("(")
+                    names = []
+                    while not self.at(")"):
+                        names.append(self.eat(kind="id"))
+                        if not self.at(")"):
+                            self.eat(",")
+                    self.eat(")")
+                    self.eat("=")
+                    e = self.expr()
+                    self.eat(";")
+                    stmts.append(("letpat", segs, names, e))
+                    continue
+                ann = None
                 if self.at(":"):
-                    self.err("unsupported: type annotation on let")
+                    self.eat()
+                    ann = self.eat(kind="id")
                 self.eat("=")
                 e = self.expr()
                 self.eat(";")
-                stmts.append(("let", name, e))
+                stmts.append(("let", name, e, ann))
                 continue
             if self.at("use"):                 # `use Enum::*;` only (patterns are resolved by the scrutinee type)
                 self.eat()
@@ -242,7 +288,8 @@ class Parser:
         if self.at("&"):
             self.eat()
             if self.at("mut"):
-                self.err("unsupported: `&mut` expression")
+                self.eat()
+                return ("refmut", self.unary())
             return ("ref", self.unary())
         if self.at("*"):
             self.err("unsupported: dereference")
@@ -314,9 +361,16 @@ class Parser:
                 return ("self",)
             if t == "if":
                 self.eat()
-                if self.at("let"):
-                    self.err("unsupported: `if let`")
-                c = self.expr()
+                if self.at("let"):                  # if let Enum::Variant = e { .. }
+                    self.eat()
+                    segs = [self.eat(kind="id")]
+                    while self.at("::"):
+                        self.eat()
+                        segs.append(self.eat(kind="id"))
+                    self.eat("=")
+                    c = ("islet", segs, self.expr())
+                else:
+                    c = self.expr()
                 b1 = self.block()
                 b2 = None
                 if self.at("else"):
@@ -419,7 +473,7 @@ def parse_sig(toks, fs, bo, where):
     if p.at("->"):
         p.eat()
         ret = p.eat(kind="id")
-        if ret not in COQ_TY or ret == "range":
+        if ret not in ("usize", "isize", "bool"):
             p.err("unsupported return type " + ret)
     if p.i != len(p.t):
         p.err("unsupported signature tail")
@@ -545,6 +599,12 @@ class Emitter:
             return "(%s, %s)" % (ga, gb), conj(ca, cb), "pair"
         if k == "path":
             return self.path(e, env, w, want)
+        if k == "islet":
+            g, c, ty = self.expr(e[2], env, w)
+            segs = e[1]
+            if ty not in ENUMS or len(segs) != 2 or segs[0] != ty or segs[1] not in ENUMS[ty][1]:
+                raise TErr("%s: unsupported `if let %s = <%s>`" % (w, "::".join(segs), ty))
+            return "(match %s with %s => true | _ => false end)" % (g, ENUMS[ty][1][segs[1]]), c, "bool"
         if k == "paren":
             return self.expr(e[1], env, w, want)
         if k == "var":
@@ -558,8 +618,8 @@ class Emitter:
             return ("(if (%s =? 0) then (z_cs0 s) else (z_cs1 s))" % gi, conj(ci, "(%s <? 2)" % gi), "Charset")
         if k in ("field", "index"):
             pl = self.place(e, w)
-            if pl == "buffer.cols" and self.cur.wmode:
-                return "(q_buf_cols O w)", None, "usize"
+            if pl in WREAD and self.cur.wmode:
+                return "(%s O w)" % WREAD[pl][0], None, WREAD[pl][1]
             if pl is None:
                 raise TErr("%s: unsupported: field access on a non-self value" % w)
             if pl not in FIELD:
@@ -665,6 +725,20 @@ class Emitter:
                 if ty != "pair":
                     raise TErr("%s: self.buffer[..] indexed by a value of type %s" % (w, ty))
                 return self.query("q_buf_char", ["w", "(fst %s)" % g, "(snd %s)" % g], w), c, "char"
+            if name == "cmp" and len(args) == 1 and args[0][0] == "ref":
+                ga, ca, ta = self.expr(recv, env, w, "usize")
+                gb, cb, tb = self.expr(args[0][1], env, w, ta or "usize")
+                if self.unify(ta, tb, w, ".cmp") not in ("usize", "isize"):
+                    raise TErr("%s: unsupported: .cmp at type %s" % (w, ta))
+                return "(%s ?= %s)" % (ga, gb), conj(ca, cb), "Ordering"
+            if name == "resize" and len(args) == 3 and recv == ("field", ("self",), "buffer"):
+                if not self.cur.wmode or self.cdepth:
+                    raise TErr("%s: unsupported here: self.buffer.resize(..)" % w)
+                gs, cs = self.extern_args("self.buffer.resize", ["i", "i", "p"], args, env, w)
+                self.qn += 1
+                q = "q%d" % self.qn
+                self.pre.append(("'(w, %s)" % q, "op_buf_resize O w %s" % " ".join(gs)))
+                return q, cs, "pair"
             if name == "unwrap_or" and len(args) == 1:
                 ga, ca, ta = self.expr(recv, env, w)
                 if ta != "opt_usize":
@@ -828,6 +902,8 @@ class Emitter:
             inner = []
             if st[0] == "let":
                 declared.add(st[1])
+            elif st[0] == "letpat":
+                declared.update(st[2])
             elif st[0] == "assign" and st[1][0] == "var":
                 inner.append(st[1][1])
             elif st[0] == "for":
@@ -915,8 +991,27 @@ class Emitter:
 
     def stmt(self, st, env, f, lines, ind):
         w = f.name
+        if st[0] == "letpat":
+            segs, names, e = st[1], st[2], st[3]
+            g, c, ty = self.expr(e, env, w)
+            if len(segs) != 2 or segs[0] != ty or tuple(segs) not in LETPATS or len(names) != len(LETPATS[tuple(segs)][1]):
+                raise TErr("%s: unsupported pattern `let %s(..)` on a value of type %s" % (w, "::".join(segs), ty))
+            ctor, tys = LETPATS[tuple(segs)]
+            self.flush_pre(lines, ind)
+            self.charge(c, lines, ind)
+            lines.append("%slet '(%s %s) := %s in" % (ind, ctor, " ".join("v_" + n for n in names), g))
+            if ty == "XtwinopsOp":           # the components are N in the model: the functions work on Z
+                for n in names:
+                    lines.append("%slet v_%s := Z.of_N v_%s in" % (ind, n, n))
+            for n, t in zip(names, tys):
+                env[n] = t
+            return
         if st[0] == "let":
-            g, c, ty = self.expr(st[2], env, w)
+            g, c, ty = self.expr(st[2], env, w, st[3])
+            if ty is None and st[3] in INT:
+                ty = st[3]
+            if st[3] is not None and ty != st[3]:
+                raise TErr("%s: `let %s: %s` initialised with a value of type %s" % (w, st[1], st[3], ty))
             if ty is None:
                 raise TErr("%s: cannot determine the type of `let %s`" % (w, st[1]))
             self.flush_pre(lines, ind)
@@ -938,9 +1033,41 @@ class Emitter:
                 self.charge(c, lines, ind)
                 lines.append("%slet v_%s := %s in" % (ind, lhs[1], g))
                 return
+            if lhs[0] == "tuple":           # (place, place) = <pair>
+                pls = [self.place(x, w) for x in lhs[1]]
+                if op != "=" or len(pls) != 2 or any(pl not in FIELD or FIELD[pl][1] != "usize" for pl in pls):
+                    raise TErr("%s: unsupported tuple assignment" % w)
+                g, c, ty = self.expr(rhs, env, w)
+                if ty != "pair":
+                    raise TErr("%s: tuple assignment from a value of type %s" % (w, ty))
+                self.flush_pre(lines, ind)
+                self.charge(c, lines, ind)
+                lines.append("%slet v_tmp_pair := %s in" % (ind, g))
+                lines.append("%slet s := set_%s (fst v_tmp_pair) s in" % (ind, FIELD[pls[0]][0]))
+                lines.append("%slet s := set_%s (snd v_tmp_pair) s in" % (ind, FIELD[pls[1]][0]))
+                return
             pl = self.place(lhs, w)
             if pl is None:
                 raise TErr("%s: unsupported assignment target" % w)
+            if f.wmode and op == "=" and pl not in FIELD:
+                ev = None
+                if pl in WWRITE:
+                    g, c, ty = self.expr(rhs, env, w, WWRITE[pl][1])
+                    if ty not in (WWRITE[pl][1], None) or (ty is None and WWRITE[pl][1] not in INT):
+                        raise TErr("%s: write to self.%s: type %s" % (w, pl, ty))
+                    ev = "(%s %s)" % (WWRITE[pl][0], self.atom(g))
+                elif rhs[0] == "field" and (pl, self.place(rhs, w)) in WMOVE:
+                    ev, c = WMOVE[(pl, self.place(rhs, w))], None
+                elif pl == "buffer" and rhs[0] == "path" and rhs[1] == ["Buffer", "new"] and rhs[2] is not None \
+                        and len(rhs[2]) == 4 and rhs[2][2] == ("call", "Some", [("num", 0)]) \
+                        and rhs[2][3] == ("call", "Some", [("ref", ("field", ("self",), "pen"))]):
+                    gs, c = self.extern_args("Buffer::new", ["i", "i"], rhs[2][:2], env, w)
+                    ev = "(EvBufNewAlt %s)" % " ".join(gs)
+                if ev is not None:
+                    self.flush_pre(lines, ind)
+                    self.charge(c, lines, ind)
+                    self.bind(lines, ind, "op_ev O w %s" % ev, "w")
+                    return
             if pl not in FIELD:
                 raise TErr("%s: unsupported: write to self.%s (not a scalar field of the tie)" % (w, pl))
             if f.selfk != "mut":
@@ -1014,6 +1141,8 @@ class Emitter:
                     gp = "true" if pat[1] else "false"
                 else:
                     segs = pat[1]
+                    if ts == "Ordering" and segs[:-1] in (["std", "cmp", "Ordering"], ["Ordering"]):
+                        segs = ["Ordering", segs[-1]]
                     if ts not in ENUMS or len(segs) > 2 or (len(segs) == 2 and segs[0] != ts) \
                             or segs[-1] not in ENUMS[ts][1]:
                         raise TErr("%s: unsupported pattern %s in a match on %s" % (w, "::".join(segs), ts))
@@ -1034,7 +1163,7 @@ class Emitter:
             return
         if e[0] == "mcall" and e[1][0] == "self":
             g = self.need(e[2], True)
-            if g.ret is not None:
+            if g.ret is not None and not g.wmode:
                 raise TErr("%s: unsupported: value of self.%s discarded" % (w, e[2]))
             if g.selfk == "mut" and f.selfk != "mut":
                 raise TErr("%s: `&mut self` method called without `&mut self`" % w)
@@ -1045,7 +1174,7 @@ class Emitter:
             if not f.wmode:
                 lines.append("%slet '(s, okc) := %s in" % (ind, app))
             elif g.wmode:
-                self.bind(lines, ind, app, "'(s, w, okc)")
+                self.bind(lines, ind, app, "'(s, w, okc, _)" if g.ret is not None else "'(s, w, okc)")
             else:
                 self.bind(lines, ind, "zlift O (%s) w" % app, "'(s, w, okc)")
             lines.append("%slet ok := ok && okc in" % ind)
@@ -1066,6 +1195,13 @@ class Emitter:
                     lines.append("%slet s := z_emit %s s in" % (ind, ev))
                 return
             raise TErr("%s: unsupported call %s.%s(..)" % (w, "self." + pl if pl is not None else "<expr>", e[2]))
+        if e[0] == "path" and e[1] == ["mem", "swap"] and e[2] is not None and len(e[2]) == 2 and f.wmode \
+                and all(a[0] == "refmut" for a in e[2]):
+            pls = tuple(self.place(a[1], w) for a in e[2])
+            if pls not in WSWAP:
+                raise TErr("%s: unsupported: mem::swap of %s" % (w, pls))
+            self.bind(lines, ind, "op_ev O w %s" % WSWAP[pls], "w")
+            return
         if e[0] == "call":
             raise TErr("%s: unsupported: free function call %s(..) as a statement" % (w, e[1]))
         raise TErr("%s: unsupported expression statement (%s)" % (w, e[0]))
@@ -1077,11 +1213,27 @@ class Emitter:
         ps = "".join(" (v_%s : %s)" % (n, COQ_TY[ty]) for n, ty in f.params)
         stmts, tail = f.body
         if f.wmode:
-            if f.selfk != "mut" or f.ret is not None:
-                raise TErr("%s: unsupported: W-mode function that is not a unit `&mut self` method" % f.name)
-            lines = ["  let ok := true in"] + self.block_lines(f.body, env, f, "  ", "s, w, ok", nested=False)
-            return "Definition w_%s {W : Type} (O : zops W) (s : zt) (w : W)%s : option (zt * W * bool) :=\n%s.\n" % (
-                f.name, ps, "\n".join(lines))
+            if f.selfk != "mut":
+                raise TErr("%s: unsupported: W-mode function that is not a `&mut self` method" % f.name)
+            if f.ret is None:
+                lines = ["  let ok := true in"] + self.block_lines(f.body, env, f, "  ", "s, w, ok", nested=False)
+                rty = "zt * W * bool"
+            else:
+                if tail is None:
+                    raise TErr("%s: no tail expression" % f.name)
+                lines = ["  let ok := true in"]
+                self.closers.append(0)
+                for st in stmts:
+                    self.stmt(st, env, f, lines, "  ")
+                g, c, ty = self.expr(tail, env, f.name, f.ret)
+                if ty != f.ret:
+                    raise TErr("%s: returns %s, declared %s" % (f.name, ty, f.ret))
+                self.flush_pre(lines, "  ")
+                self.charge(c, lines, "  ")
+                lines.append("  Some (s, w, ok, %s)%s" % (g, ")" * self.closers.pop()))
+                rty = "zt * W * bool * %s" % COQ_TY[f.ret]
+            return "Definition w_%s {W : Type} (O : zops W) (s : zt) (w : W)%s : option (%s) :=\n%s.\n" % (
+                f.name, ps, rty, "\n".join(lines))
         sarg = " (s : zt)" if f.selfk else ""
         lines = ["  let ok := true in"]
         if f.ret is None:
@@ -1138,10 +1290,17 @@ def check_structs(term, cur):
     want = {"cols": "usize", "rows": "usize", "pending_wrap": "bool", "top_margin": "usize", "bottom_margin": "usize",
             "origin_mode": "bool", "new_line_mode": "bool", "active_charset": "usize", "cursor": "Cursor",
             "insert_mode": "bool", "auto_wrap_mode": "bool", "cursor_keys_mode": "CursorKeysMode",
+            "saved_ctx": "SavedCtx", "alternate_saved_ctx": "SavedCtx", "active_buffer_type": "BufferType",
+            "xtwinops": "bool", "buffer": "Buffer", "other_buffer": "Buffer", "pen": "Pen",
             "charsets": "[ Charset ; 2 ]"}
     for k, v in want.items():
         if tf.get(k) != v:
             raise TErr("struct Terminal: field %s has type %s (expected %s)" % (k, tf.get(k), v))
+    sf = struct_fields(term, "SavedCtx")
+    for k, v in (("cursor_col", "usize"), ("cursor_row", "usize"), ("pen", "Pen"), ("origin_mode", "bool"),
+                 ("auto_wrap_mode", "bool")):
+        if sf.get(k) != v:
+            raise TErr("struct SavedCtx: field %s has type %s (expected %s)" % (k, sf.get(k), v))
     for k, v in (("col", "usize"), ("row", "usize"), ("visible", "bool")):
         if cf.get(k) != v:
             raise TErr("struct Cursor: field %s has type %s (expected %s)" % (k, cf.get(k), v))
@@ -1220,8 +1379,17 @@ Record zops (W : Type) := mkZops {
   q_tabs_before : W -> Z -> Z -> option (option Z);
   q_buf_char : W -> Z -> Z -> option Z;
   q_buf_cols : W -> Z;
-  q_translate : charset -> Z -> option Z
+  q_translate : charset -> Z -> option Z;
+  op_buf_resize : W -> Z -> Z -> Z -> Z -> option (W * (Z * Z));
+  q_sctx_col : W -> Z;
+  q_sctx_row : W -> Z;
+  q_sctx_org : W -> bool;
+  q_sctx_awm : W -> bool;
+  q_xtw : W -> bool;
+  q_active : W -> btype
 }.
+Arguments op_buf_resize {W}. Arguments q_sctx_col {W}. Arguments q_sctx_row {W}. Arguments q_sctx_org {W}.
+Arguments q_sctx_awm {W}. Arguments q_xtw {W}. Arguments q_active {W}.
 Arguments op_ev {W}. Arguments op_full {W}. Arguments q_tabs_after {W}. Arguments q_tabs_before {W}. Arguments q_buf_char {W}.
 Arguments q_buf_cols {W}. Arguments q_translate {W}.
 
@@ -1252,7 +1420,7 @@ def check_cell(cell):
         raise TErr("From<char> for Cell: unexpected body")
 
 
-EXEC_CONV = {"u16": "(Z.of_N %s)", "char": "(Z.of_N %s)", "Charset": "%s"}
+EXEC_CONV = {"u16": "(Z.of_N %s)", "char": "(Z.of_N %s)", "Charset": "%s", "XtwinopsOp": "%s"}
 
 
 def gen_termfns(term, cur, hdr, cell=None):
